@@ -8,6 +8,7 @@ import (
 	"fmt"
 	"go/token"
 	"go/types"
+	"os"
 	"sort"
 	"strings"
 
@@ -91,11 +92,17 @@ func (c *Ctx) ruleSitesIMPL() {
 			})
 			c.require(si, rule, "TYPE-FOUND(+)", tyOK, "IMPL03 only when the annotated type was loaded (lookup by ann.OnType)")
 			miss := si.take("missing-nonempty", func(l Lit) bool {
-				if l.Kind != "lt" || !l.Pos {
-					return false
+				// 0 < len(missing)  or  len(missing) != 0
+				var x ssa.Value
+				switch {
+				case l.Kind == "lt" && l.Pos && isZeroPos(l.X):
+					x = lenOf(l.Y)
+				case l.Kind == "eq" && !l.Pos && isZeroPos(l.X):
+					x = lenOf(l.Y)
+				case l.Kind == "eq" && !l.Pos && isZeroPos(l.Y):
+					x = lenOf(l.X)
 				}
-				x := lenOf(l.Y)
-				if x == nil || !isZeroPos(l.X) {
+				if x == nil {
 					return false
 				}
 				call, ok := firstRoot(P, x).(*ssa.Call)
@@ -181,15 +188,24 @@ func (c *Ctx) resolveOrderTable(find *ssa.Function, blk *ssa.BasicBlock) ([]stri
 		return nil, false
 	}
 	// the predicate: element of a loop over the whole list, in index order
-	u, ok := listElem.(*ssa.UnOp)
-	if !ok {
+	var listIdx, listBase ssa.Value
+	switch le := listElem.(type) {
+	case *ssa.UnOp:
+		ia, ok := le.X.(*ssa.IndexAddr)
+		if !ok || !(isRangeIndex(ia.Index) || isFullIndexLoopOver(ia.Index, ia.X)) {
+			return nil, false
+		}
+		listIdx, listBase = ia.Index, ia.X
+	case *ssa.Index:
+		// element of an array value: `for _, p := range [...]func(..) bool{...}`
+		if !isRangeIndex(le.Index) {
+			return nil, false
+		}
+		listIdx, listBase = le.Index, le.X
+	default:
 		return nil, false
 	}
-	ia, ok := u.X.(*ssa.IndexAddr)
-	if !ok || !(isRangeIndex(ia.Index) || isFullIndexLoopOver(ia.Index, ia.X)) {
-		return nil, false
-	}
-	oi, ok := ia.Index.(ssa.Instruction)
+	oi, ok := listIdx.(ssa.Instruction)
 	if !ok {
 		return nil, false
 	}
@@ -221,8 +237,22 @@ func (c *Ctx) resolveOrderTable(find *ssa.Function, blk *ssa.BasicBlock) ([]stri
 	// the list: function literals stored at constant indices of its backing array - a package-level variable
 	// initialised in init, or a slice literal of the function itself
 	var arr *ssa.Alloc
-	switch x := ia.X.(type) {
+	switch x := listBase.(type) {
 	case *ssa.UnOp:
+		if a, isLocal := x.X.(*ssa.Alloc); isLocal && a.Parent() == find {
+			// a local array variable holding the composite literal, read once for the loop
+			if vals, _, escaped := P.CellStores(a); !escaped && len(vals) <= 1 {
+				arr = a
+				if len(vals) == 1 {
+					if ld, ok := vals[0].(*ssa.UnOp); ok {
+						if src, ok := ld.X.(*ssa.Alloc); ok {
+							arr = src
+						}
+					}
+				}
+			}
+			break
+		}
 		g, ok := x.X.(*ssa.Global)
 		if !ok {
 			return nil, false
@@ -513,6 +543,13 @@ func (c *Ctx) ruleImportResolution() {
 			return
 		}
 	}
+	// fused form: one pass that returns an alias match at once and keeps, per lower priority, the first match in a
+	// variable that is assigned only while it is still nil; after the pass the variables are returned in order
+	if kinds, ok := c.resolveOrderFused(find); ok {
+		want := []string{"alias", "name", "path", "suffix"}
+		c.check(strings.Join(kinds, ",") == strings.Join(want, ","), "RESOLVE-ORDER", "util.ImportMap.Find", P.Pos(find.Pos()), "explicit alias > declared package name > exact path > last path element (one pass, first match of each priority kept)", fmt.Sprintf("qualifier resolution order is not alias > package name > exact path > path suffix (single pass gives %v)", kinds))
+		return
+	}
 	// order by dominance of the loops: a return of kind k must be reachable only after the loops of earlier kinds finished
 	sort.Slice(rets, func(i, j int) bool { return rets[i].blk.Index < rets[j].blk.Index })
 	var kinds []string
@@ -792,37 +829,53 @@ func (c *Ctx) ruleMatcherShape() {
 		c.check(nAppend == 2 && okGuards, "MATCHER/MISSING", "implements.checkImplementation", P.Pos(ci.Pos()), "an interface method is listed iff it is absent by name or its signature differs", "checkImplementation does not list exactly the interface methods that are absent or mismatching")
 		// pointer contract: all methods; value contract: value-receiver methods only
 		var allWhenPtr, valueOnly bool
-		allInstrs(ci, func(b *ssa.BasicBlock, ins ssa.Instruction) {
-			mu, ok := ins.(*ssa.MapUpdate)
-			if !ok {
-				return
+		// the table of usable methods may be filled by a helper that is handed the flag: read it in the calling
+		// context of checkImplementation
+		cpins, cfamily := P.ContextPins(ci)
+		var contractFns []*ssa.Function
+		for f := range cfamily {
+			if f == ci || (!P.isAnchor(f) && f.Parent() == nil) {
+				contractFns = append(contractFns, f)
 			}
-			g := nonLoopGuards(P.BlockGuards(b))
-			reqP := func(pos bool) bool {
-				return hasLit(g, func(l Lit) bool { return l.Kind == "cond" && l.Val == ci.Params[2] && l.Pos == pos })
-			}
-			recvP := func(pos bool) bool {
-				return hasLit(g, func(l Lit) bool {
-					return l.Kind == "cond" && l.Val != nil && l.Pos == pos && strings.HasSuffix(P.Desc(l.Val), "TypeMethod.ReceiverIsPointer)")
+		}
+		sort.Slice(contractFns, func(i, j int) bool { return FuncName(contractFns[i]) < FuncName(contractFns[j]) })
+		flagD := P.Desc(ci.Params[2])
+		isFlag := func(v ssa.Value) bool { return v == ssa.Value(ci.Params[2]) || (v != nil && P.Desc(v) == flagD) }
+		P.PinnedAll(cpins, func() {
+			for _, cf := range contractFns {
+				allInstrs(cf, func(b *ssa.BasicBlock, ins ssa.Instruction) {
+					mu, ok := ins.(*ssa.MapUpdate)
+					if !ok {
+						return
+					}
+					g := nonLoopGuards(P.BlockGuards(b))
+					reqP := func(pos bool) bool {
+						return hasLit(g, func(l Lit) bool { return l.Kind == "cond" && isFlag(l.Val) && l.Pos == pos })
+					}
+					recvP := func(pos bool) bool {
+						return hasLit(g, func(l Lit) bool {
+							return l.Kind == "cond" && l.Val != nil && l.Pos == pos && strings.HasSuffix(P.Desc(l.Val), "TypeMethod.ReceiverIsPointer)")
+						})
+					}
+					_ = mu
+					if reqP(true) && len(g) == 1 {
+						allWhenPtr = true
+					}
+					// `if requirePointer || !m.ReceiverIsPointer { add }`: both clauses in one condition
+					if len(g) == 1 && g[0].Kind == "or" && g[0].Pos && len(g[0].Subs) == 2 {
+						sub := g[0].Subs
+						isReq := func(l Lit) bool { return l.Kind == "cond" && isFlag(l.Val) && l.Pos }
+						isVal := func(l Lit) bool {
+							return l.Kind == "cond" && l.Val != nil && !l.Pos && strings.HasSuffix(P.Desc(l.Val), "TypeMethod.ReceiverIsPointer)")
+						}
+						if (isReq(sub[0]) && isVal(sub[1])) || (isReq(sub[1]) && isVal(sub[0])) {
+							allWhenPtr, valueOnly = true, true
+						}
+					}
+					if reqP(false) && recvP(false) && len(g) == 2 {
+						valueOnly = true
+					}
 				})
-			}
-			_ = mu
-			if reqP(true) && len(g) == 1 {
-				allWhenPtr = true
-			}
-			// `if requirePointer || !m.ReceiverIsPointer { add }`: both clauses in one condition
-			if len(g) == 1 && g[0].Kind == "or" && g[0].Pos && len(g[0].Subs) == 2 {
-				sub := g[0].Subs
-				isReq := func(l Lit) bool { return l.Kind == "cond" && l.Val == ci.Params[2] && l.Pos }
-				isVal := func(l Lit) bool {
-					return l.Kind == "cond" && l.Val != nil && !l.Pos && strings.HasSuffix(P.Desc(l.Val), "TypeMethod.ReceiverIsPointer)")
-				}
-				if (isReq(sub[0]) && isVal(sub[1])) || (isReq(sub[1]) && isVal(sub[0])) {
-					allWhenPtr, valueOnly = true, true
-				}
-			}
-			if reqP(false) && recvP(false) && len(g) == 2 {
-				valueOnly = true
 			}
 		})
 		c.check(allWhenPtr && valueOnly, "MATCHER/CONTRACT", "implements.checkImplementation", P.Pos(ci.Pos()), "&I: all methods; I: methods with value receiver", "the pointer/value contract is not: with & all methods count, without & only value-receiver methods")
@@ -908,60 +961,96 @@ func (c *Ctx) ruleTypeIdent() {
 		// qualifies packages by *name* - identifies more distinct types with each other than the recorded finding says.
 		if !usesGoTypes {
 			nStores, nBad := 0, 0
+			// the converter itself and, in the context of each call, the helpers it builds its result with
+			type scope struct {
+				f    *ssa.Function
+				pins pinMap
+			}
+			scopes := []scope{{fn, nil}}
+			allInstrs(fn, func(_ *ssa.BasicBlock, ins ssa.Instruction) {
+				if call, ok := ins.(*ssa.Call); ok {
+					if h := call.Call.StaticCallee(); h != nil && h != fn && P.IsProductFunc(h) && len(h.Blocks) > 0 && !P.isAnchor(h) {
+						scopes = append(scopes, scope{h, pinMap{h: call}})
+					}
+				}
+			})
+			for _, sc := range scopes {
+				sc := sc
+				P.PinnedAll(sc.pins, func() {
+					allInstrs(sc.f, func(b *ssa.BasicBlock, ins ssa.Instruction) {
+						st, ok := ins.(*ssa.Store)
+						if !ok {
+							return
+						}
+						fa, ok := st.Addr.(*ssa.FieldAddr)
+						if !ok {
+							return
+						}
+						if _, isStruct := deref(fa.X.Type()).Underlying().(*types.Struct); !isStruct {
+							return
+						}
+						switch deref(fa.X.Type()).Underlying().(*types.Struct).Field(fa.Field).Name() {
+						case "TypeName":
+						case "TypePackage":
+							// the package beside an object name is its full path (or "" for universe / unnamed types)
+							if !P.RootsAllDeep(st.Val, func(r ssa.Value) bool {
+								if cs, ok := r.(*ssa.Const); ok {
+									return cs.Value != nil && cs.Value.ExactString() == `""`
+								}
+								return P.CallTo(r, "(*go/types.Package).Path") != nil
+							}) {
+								nBad++
+								c.fail("TYPE-IDENT", "implements."+name+"#rendering", P.Pos(st.Pos()), "the compared TypePackage is "+short(P.DescDeep(st.Val))+", not (*types.Package).Path(): named types of distinct packages are identified")
+							}
+							return
+						default:
+							return
+						}
+						nStores++
+						bad := ""
+						if !P.RootsAllDeep(st.Val, func(r ssa.Value) bool {
+							call, ok := r.(*ssa.Call)
+							if !ok {
+								bad = P.Desc(r)
+								return false
+							}
+							if call.Call.IsInvoke() && call.Call.Method.Name() == "String" && typeStr(call.Call.Value.Type()) == "go/types.Type" {
+								render = true
+								return true
+							}
+							switch P.calleeName(call.Common()) {
+							case "(*go/types.TypeName).Name", "(*go/types.object).Name", "(*go/types.Basic).Name":
+								return true
+							case "go/types.TypeString":
+								if c.pathQualifier(call.Call.Args[1]) {
+									render = true
+									return true
+								}
+								bad = "types.TypeString with a qualifier that is neither nil nor (*types.Package).Path"
+								return false
+							}
+							bad = P.Desc(r)
+							return false
+						}) {
+							nBad++
+							c.fail("TYPE-IDENT", "implements."+name+"#rendering", P.Pos(st.Pos()), "the compared TypeName is rendered by "+short(bad)+": not the object name of a named/basic type and not the path-qualified Type.String(); distinct types of same-named packages are identified")
+						}
+					})
+				})
+			}
+			// the case analysis of the rendering is made on the type itself: Underlying() identifies a defined type with
+			// what it is defined as (`type Ref *Node` is not `*Node`)
 			allInstrs(fn, func(b *ssa.BasicBlock, ins ssa.Instruction) {
-				st, ok := ins.(*ssa.Store)
-				if !ok {
+				ta, ok := ins.(*ssa.TypeAssert)
+				if !ok || typeStr(ta.X.Type()) != "go/types.Type" {
 					return
 				}
-				fa, ok := st.Addr.(*ssa.FieldAddr)
-				if !ok {
-					return
-				}
-				switch deref(fa.X.Type()).Underlying().(*types.Struct).Field(fa.Field).Name() {
-				case "TypeName":
-				case "TypePackage":
-					// the package beside an object name is its full path (or "" for universe / unnamed types)
-					if !P.RootsAllDeep(st.Val, func(r ssa.Value) bool {
-						if cs, ok := r.(*ssa.Const); ok {
-							return cs.Value != nil && cs.Value.ExactString() == `""`
-						}
-						return P.CallTo(r, "(*go/types.Package).Path") != nil
-					}) {
-						nBad++
-						c.fail("TYPE-IDENT", "implements."+name+"#rendering", P.Pos(st.Pos()), "the compared TypePackage is "+short(P.DescDeep(st.Val))+", not (*types.Package).Path(): named types of distinct packages are identified")
-					}
-					return
-				default:
-					return
-				}
-				nStores++
-				bad := ""
-				if !P.RootsAllDeep(st.Val, func(r ssa.Value) bool {
+				if P.RootsAny(ta.X, func(r ssa.Value) bool {
 					call, ok := r.(*ssa.Call)
-					if !ok {
-						bad = P.Desc(r)
-						return false
-					}
-					if call.Call.IsInvoke() && call.Call.Method.Name() == "String" && typeStr(call.Call.Value.Type()) == "go/types.Type" {
-						render = true
-						return true
-					}
-					switch P.calleeName(call.Common()) {
-					case "(*go/types.TypeName).Name", "(*go/types.object).Name", "(*go/types.Basic).Name":
-						return true
-					case "go/types.TypeString":
-						if c.pathQualifier(call.Call.Args[1]) {
-							render = true
-							return true
-						}
-						bad = "types.TypeString with a qualifier that is neither nil nor (*types.Package).Path"
-						return false
-					}
-					bad = P.Desc(r)
-					return false
+					return ok && call.Call.IsInvoke() && call.Call.Method.Name() == "Underlying"
 				}) {
 					nBad++
-					c.fail("TYPE-IDENT", "implements."+name+"#rendering", P.Pos(st.Pos()), "the compared TypeName is rendered by "+short(bad)+": not the object name of a named/basic type and not the path-qualified Type.String(); distinct types of same-named packages are identified")
+					c.fail("TYPE-IDENT", "implements."+name+"#rendering", P.Pos(ta.Pos()), "the rendering distinguishes its cases ("+typeStr(ta.AssertedType)+") on t.Underlying(): a defined type is identified with the type it is defined as (`type Ref *Node` and `*Node` are rendered alike; missed IMPL03)")
 				}
 			})
 			if nStores == 0 {
@@ -1254,4 +1343,231 @@ func (c *Ctx) nameUnknownGuard(lits []Lit) bool {
 		other := litOther(l, `const("")`)
 		return other != "" && l.Pos && strings.HasSuffix(other, "util.Import.PackageName)")
 	})
+}
+
+// resolveOrderFused recognises the single-pass form of ImportMap.Find (see the call site) and returns the priority
+// order it implements.
+func (c *Ctx) resolveOrderFused(find *ssa.Function) ([]string, bool) {
+	P := c.P
+	short0 := P.Desc(find.Params[1])
+	loops := naturalLoops(find)
+	if len(loops) != 1 {
+		return dbgFused(1)
+	}
+	lp := loops[0]
+	kindOf := func(lits []Lit) string {
+		kind := ""
+		for _, l := range lits {
+			if l.Kind == "eq" && l.Pos {
+				other := ""
+				if P.Desc(l.X) == short0 {
+					other = P.Desc(l.Y)
+				} else if P.Desc(l.Y) == short0 {
+					other = P.Desc(l.X)
+				}
+				switch {
+				case strings.HasSuffix(other, "util.Import.Alias)"):
+					kind = "alias"
+				case strings.HasSuffix(other, "util.Import.PackageName)"):
+					kind = "name"
+				case strings.HasSuffix(other, "util.Import.FullPath)"):
+					kind = "path"
+				}
+			}
+			if call := litCall(l); call != nil && l.Pos && call.Call.StaticCallee() != nil && FuncName(call.Call.StaticCallee()) == "util.matchesPathComponentWithSlash" {
+				kind = "suffix"
+			}
+		}
+		return kind
+	}
+	type post struct {
+		kind string
+		v    *ssa.Phi
+		blk  *ssa.BasicBlock
+	}
+	var kinds []string
+	var posts []post
+	inLoop := 0
+	bad := false
+	allInstrs(find, func(b *ssa.BasicBlock, ins ssa.Instruction) {
+		r, ok := ins.(*ssa.Return)
+		if !ok || len(r.Results) != 1 || isNilConst(r.Results[0]) {
+			return
+		}
+		if _, isElem := r.Results[0].(*ssa.IndexAddr); isElem {
+			// the immediate return inside the pass: the element itself, under its kind's condition
+			if len(b.Preds) != 1 || !lp.body[b.Preds[0]] {
+				bad = true
+				return
+			}
+			k := kindOf(P.BlockGuards(b))
+			if k == "" {
+				bad = true
+				return
+			}
+			inLoop++
+			kinds = append(kinds, k)
+			return
+		}
+		// after the pass: a variable carried by the loop
+		phi, ok := r.Results[0].(*ssa.Phi)
+		if !ok || phi.Block() != lp.head {
+			bad = true
+			return
+		}
+		posts = append(posts, post{"", phi, b})
+	})
+	if bad || inLoop != 1 || len(posts) == 0 {
+		return dbgFused(2)
+	}
+	// the pass is left early only by the immediate return
+	for _, ex := range lp.exits {
+		if ex[0] == lp.head {
+			continue
+		}
+		if _, isRet := lastInstr(ex[1]).(*ssa.Return); !isRet {
+			return dbgFused(3)
+		}
+	}
+	// each carried variable: nil at the start, assigned the element only while still nil and under its kind
+	for i := range posts {
+		phi := posts[i].v
+		k := ""
+		for ei, e := range phi.Edges {
+			if !lp.body[phi.Block().Preds[ei]] {
+				if !isNilConst(e) {
+					return dbgFused(4)
+				}
+				continue
+			}
+			// the value carried round the loop: the variable itself (kept) or the element (assigned), joined by phis
+			type vcase struct {
+				val    ssa.Value
+				guards []Lit
+				from   *ssa.BasicBlock // the block the assigned value comes from
+			}
+			var cases []vcase
+			var expand func(v ssa.Value, g []Lit, depth int) bool
+			var fromBlk *ssa.BasicBlock
+			expand = func(v ssa.Value, g []Lit, depth int) bool {
+				if v == ssa.Value(phi) {
+					return true // kept
+				}
+				if _, isElem := v.(*ssa.IndexAddr); isElem {
+					cases = append(cases, vcase{v, g, fromBlk})
+					return true
+				}
+				inner, ok := v.(*ssa.Phi)
+				if !ok || depth > 4 || !lp.body[inner.Block()] || inner.Block() == lp.head {
+					return false
+				}
+				for ei2, e2 := range inner.Edges {
+					g2 := append(append([]Lit{}, g...), P.EdgeGuards(inner.Block().Preds[ei2], inner.Block())...)
+					g2 = append(g2, P.BlockGuards(inner.Block().Preds[ei2])...)
+					fromBlk = inner.Block().Preds[ei2]
+					if !expand(e2, g2, depth+1) {
+						return false
+					}
+				}
+				return true
+			}
+			if !expand(e, nil, 0) {
+				return dbgFused(5)
+			}
+			for _, vc := range cases {
+				// (read off the branch structure: the literals of the three variables look alike)
+				whileNil := false
+				if vc.from != nil {
+					for _, tb := range find.Blocks {
+						ifi, ok := lastInstr(tb).(*ssa.If)
+						if !ok || len(tb.Succs) != 2 {
+							continue
+						}
+						bo, ok := ifi.Cond.(*ssa.BinOp)
+						if !ok || !((bo.X == ssa.Value(phi) && isNilConst(bo.Y)) || (bo.Y == ssa.Value(phi) && isNilConst(bo.X))) {
+							continue
+						}
+						branch := 0
+						if bo.Op == token.NEQ {
+							branch = 1
+						} else if bo.Op != token.EQL {
+							continue
+						}
+						if sb := tb.Succs[branch]; len(sb.Preds) == 1 && dominates(sb, vc.from) {
+							whileNil = true
+						}
+					}
+				}
+				kk := kindOf(vc.guards)
+				if os.Getenv("GGV_DEBUG_FUSED") != "" {
+					fmt.Println("FUSED case", phi.Name(), "whileNil", whileNil, "kind", kk, "nguards", len(vc.guards))
+					for _, l := range vc.guards {
+						fmt.Println("   ", l.String()[:min(len(l.String()), 120)], "nilv:", nilCheckedValue(l) != nil)
+					}
+				}
+				if !whileNil || kk == "" || (k != "" && k != kk) {
+					return dbgFused(6)
+				}
+				if (kk == "path" || kk == "suffix") && !c.nameUnknownGuard(vc.guards) {
+					c.pathFallbackOpen = true
+				}
+				k = kk
+			}
+		}
+		if k == "" {
+			return dbgFused(7)
+		}
+		posts[i].kind = k
+	}
+	// returned in the order of the blocks, each only after the earlier variables were found nil; all but the last
+	// under "is not nil" (read off the branch structure)
+	nilTested := func(phi *ssa.Phi, blk *ssa.BasicBlock, wantNil bool) bool {
+		for _, tb := range find.Blocks {
+			ifi, ok := lastInstr(tb).(*ssa.If)
+			if !ok || len(tb.Succs) != 2 {
+				continue
+			}
+			bo, ok := ifi.Cond.(*ssa.BinOp)
+			if !ok || !((bo.X == ssa.Value(phi) && isNilConst(bo.Y)) || (bo.Y == ssa.Value(phi) && isNilConst(bo.X))) {
+				continue
+			}
+			var nilBranch int
+			switch bo.Op {
+			case token.EQL:
+				nilBranch = 0
+			case token.NEQ:
+				nilBranch = 1
+			default:
+				continue
+			}
+			br := nilBranch
+			if !wantNil {
+				br = 1 - nilBranch
+			}
+			if sb := tb.Succs[br]; len(sb.Preds) == 1 && dominates(sb, blk) {
+				return true
+			}
+		}
+		return false
+	}
+	sort.Slice(posts, func(i, j int) bool { return posts[i].blk.Index < posts[j].blk.Index })
+	for i, pp := range posts {
+		for j := 0; j < i; j++ {
+			if !nilTested(posts[j].v, pp.blk, true) {
+				return dbgFused(8)
+			}
+		}
+		if i < len(posts)-1 && !nilTested(pp.v, pp.blk, false) {
+			return dbgFused(9)
+		}
+		kinds = append(kinds, pp.kind)
+	}
+	return kinds, true
+}
+
+func dbgFused(n int) ([]string, bool) {
+	if os.Getenv("GGV_DEBUG_FUSED") != "" {
+		fmt.Println("FUSED bail", n)
+	}
+	return nil, false
 }
